@@ -70,6 +70,21 @@ Proof.
 Qed.
 Print Assumptions C11_weighted_interval.
 
+(* ... and only for those: the preimage of the j-th eligible validator under the weighted pick is
+   exactly an interval of residues of length equal to its weight, so under a uniform digest it leads
+   a share weight / eligible-weight of the turns *)
+Theorem C11_weighted_share : forall vs sel s view h j idx v,
+  schedule_new vs sel = Ok s -> smode sel = Weighted -> 0 <= h ->
+  nth_error (sleaders s) j = Some idx -> nth_error (svec s) idx = Some v ->
+  (view_leader s view h = Ok (vkey v) <->
+   prefix (svec s) (sleaders s) j <= h mod sleader_weight s < prefix (svec s) (sleaders s) j + vweight v).
+Proof.
+  intros vs sel s view h j idx v Hn Hm Hh.
+  destruct (schedule_new_valid vs sel s Hn) as (Hval & _ & Hsel). subst sel.
+  exact (weighted_share s view h j idx v Hval Hm Hh).
+Qed.
+Print Assumptions C11_weighted_share.
+
 (* The code before repairs F1/F2 violates totality: witnesses. *)
 Theorem C11_pre_repair_freq0_refuted :
   exists vs sel s view h, schedule_new vs sel = Ok s /\ 0 <= view /\ 0 <= h /\
